@@ -10,7 +10,7 @@ from vf import common, irsem, exprgen
 
 PROPERTY = 'C05'
 RULE = ('(a) rule-directed templates: one family per rewrite rule of _expr_simp (flattening, constant folding of every operator, '
-        'neutral/absorbing elements on either side, x^x, x+(-x), --x, -(a+b), a-b, rotate merging, rotate by width, (A&mask)>>s, '
+        'neutral/absorbing elements on either side, x^x, x+(-x), --x, -(a+b), a-b, rotate merging, rotate by width, (A&mask)>>s, print-collision pairs (same text and outer width, different inner widths, simplified one after the other in one process), an operator-pair grid (x o2 m) o1 s / s o1 (x o2 m) for all 11x11 pairs of binary operators x boundary constants, '
         '== folding, (A|c)==0, parity, slice of int/slice/compose/mem, compose merging, cond rules) instantiated at widths '
         '1/8/16/32/64 with boundary constants and both operand orders; (b) seeded random well-typed trees over all seven node '
         'kinds, depth<=4; (c) the lifted semantics of a fixed list of integer-core instructions. Each tree is simplified from a '
@@ -57,9 +57,9 @@ def valuations(e, seedtag, n_random=6):
         ids = {}
         for nm, sz in names:
             ids[nm] = {'zero': 0, 'ones': irsem.mask(sz), 'sign': 1 << (sz - 1), 'one': 1}[kind]
-        envs.append(irsem.Env(seed=(seedtag, kind), ids=ids))
+        envs.append(irsem.Env(seed=(seedtag, kind), ids=ids, segmented=True))
     for i in range(n_random):
-        envs.append(irsem.Env(seed=(seedtag, i)))
+        envs.append(irsem.Env(seed=(seedtag, i), segmented=True))
     return envs
 
 
@@ -203,7 +203,7 @@ def check_tree(sh, e, seedtag, origin, exhaustive8=0):
 
 def exhaustive_compare(sh, e, s, names, n, seedtag):
     """All (or n sampled) valuations of one or two 8-bit variables."""
-    env = irsem.Env(seed=(seedtag, 'exh'))
+    env = irsem.Env(seed=(seedtag, 'exh'), segmented=True)
     total = 256 ** len(names)
     if n >= total:
         it = itertools.product(range(256), repeat=len(names))
@@ -349,6 +349,18 @@ def templates(w):
     if w >= 8:
         yield 'parity', Op('parity', x)
         yield 'parity', Op('parity', Op('+', x, I(0)))
+    # 11b memory cells (with and without a segment selector) whose address is rewritten by the simplifier
+    if w == 32:
+        gs = ex.ExprId('gs', 16)
+        for segm in (None, gs, ex.ExprOp('+', gs, exprgen.Int(0, 16))):
+            for sz in (8, 16, 32):
+                for addr in (Op('+', x, I(0)), Op('+', Op('+', x, I(4)), I(4)), Op('-', Op('+', x, y), y), Op('<<', x, I(0)), Op('+', x, y), x,
+                             Op('^', x, x), Op('|', x, x)):
+                    m = ex.ExprMem(addr, sz, segm)
+                    yield 'segmem', m
+                    yield 'segmem', Op('^', ex.ExprMem(addr, sz, segm), ex.ExprMem(x, sz)) if sz == 32 else ex.ExprCompose([(m, 0, sz), (exprgen.Int(0, 32 - sz if 32 - sz in (8, 16) else 8)[0:32 - sz] if False else ex.ExprSlice(y, 0, 32 - sz), sz, 32)])
+                    if sz > 8:
+                        yield 'segmem', ex.ExprSlice(m, 0, 8)
     # 12 cond
     for c in few:
         yield 'cond', ex.ExprCond(I(c), x, y)
@@ -476,8 +488,34 @@ def ambient_contracts(sh, which):
     sh.sample({'ambient contracts during the repository tests': r['counters'], 'pytest': p.stdout.decode(errors='replace').strip().splitlines()[-1] if p.stdout else ''})
 
 
+def shadow_templates(names, order):
+    """Expressions whose printed text and outer width coincide although their inner widths differ (identifiers and
+    constants print the same at every width): a memo keyed on the text would confuse them. Yields (family, tree) in an
+    order that visits each pair (narrow first / wide first according to `order`)."""
+    ex, mi = exprgen.M()
+    Op = ex.ExprOp
+    pairs = ((16, 32), (8, 32), (8, 16), (32, 64))
+    for ws in pairs:
+        seq = ws if order == 'narrow-first' else tuple(reversed(ws))
+        for w in seq:
+            I = lambda v: exprgen.Int(v, w)
+            x, y = ex.ExprId(names[0], w), ex.ExprId(names[1], w)
+            inner = [Op('>>', Op('-', I(1)), I(8 if w > 8 else 3)), Op('>>>', x, I(4)), Op('<<<', x, I(4)), Op('>>', Op('+', x, I(0x7f)), I(4)),
+                     Op('a>>', x, I(4)), Op('>>', Op('-', x), I(w // 2)), Op('>>', Op('*', x, I(0x55)), I(4)), Op('>>', Op('+', x, y), I(1)),
+                     Op('>>>', Op('+', x, I(1)), I(9)), Op('-', I(0), x), Op('>>', Op('^', x, I(irsem.mask(min(ws)))), I(4)), Op('a>>', Op('-', I(1)), I(1))]
+            c8a, c8b = ex.ExprId('p8', 8), ex.ExprId('q8', 8)
+            for t in inner:
+                yield 'shadow:slice', ex.ExprSlice(t, 0, 8)
+                if min(ws) >= 16:
+                    yield 'shadow:slice', ex.ExprSlice(t, 8, 16)
+                yield 'shadow:cond', ex.ExprCond(t, c8a, c8b)
+                yield 'shadow:compose', ex.ExprCompose([(ex.ExprSlice(t, 0, 8), 0, 8), (c8a, 8, 16)])
+                if w == 32:
+                    yield 'shadow:mem', ex.ExprMem(t, 8)
+
+
 def shards(tier, seed):
-    out = []
+    out = [('shadow', 'narrow-first'), ('shadow', 'wide-first')]
     for w in (1, 8, 16, 32, 64):
         for part in range(4):
             out.append(('tmpl', w, part))
@@ -500,6 +538,9 @@ def run_shard(shard, tier, seed):
             if i % 4 != part:
                 continue
             check_tree(sh, t, ('t', w, i), 'tmpl:%s' % fam, exhaustive8=exh if w == 8 else 0)
+    elif kind == 'shadow':
+        for i, (fam, t) in enumerate(shadow_templates(('x', 'y') if shard[1] == 'narrow-first' else ('u', 'v'), shard[1])):
+            check_tree(sh, t, ('sh', shard[1], i), 'tmpl:%s' % fam)
     elif kind == 'slicecomp':
         for i, (fam, t) in enumerate(slice_compose_templates()):
             check_tree(sh, t, ('sc', i), 'tmpl:%s' % fam, exhaustive8=512)
@@ -511,7 +552,7 @@ def run_shard(shard, tier, seed):
         sh.extra['lifted_trees'] = len(lifted_trees())
     else:
         rng = common.rng_for(seed, 'C05', shard[1])
-        g = exprgen.Gen(rng, ops=('+', '*', '^', '&', '|'))
+        g = exprgen.Gen(rng, ops=('+', '*', '^', '&', '|'), segm=True)
         n = 40 if tier == 'quick' else 100
         for i in range(n):
             w = rng.choice((8, 16, 32, 32, 64, 1))
